@@ -403,6 +403,24 @@ def everyExitReleasesSenderWaiters (sh : List Item) : Bool :=
   eachPrecededBy sh (fun it => it.kind == "return") (fun _ prev => prev == ⟨prev.depth, "call", "close", "close(u.senderDone)"⟩) &&
   sh.getLast? == some ⟨0, "go", "", "u.sender"⟩
 
+/-- `Muxer.sender`, after its loop ended (transport error or Stop): BOTH queues are drained by one
+`select` inside one loop, so a tube blocked on the priority queue (holding its lock) is released
+whatever the state of the other queue - `Model/StopSteps.lean`'s drain step takes from either
+queue.  (Draining one queue to its close first deadlocks Stop: finding F29.) -/
+def drainsBothQueuesTogether (sh : List Item) : Bool :=
+  match find sh (fun it => it.depth == 0 && it.kind == "assign" && it.head == "sendQueue, prioritySendQueue") with
+  | some i =>
+    sh[i + 1]? == some ⟨0, "for", "", ""⟩ && sh[i + 2]? == some ⟨1, "select", "", ""⟩ &&
+    -- the two receive cases are inside that one select (depth 2, before the loop's end)
+    (let body := (sh.drop (i + 3)).takeWhile (fun it => decide (1 ≤ it.depth))
+     (body.filter (fun it => it.depth == 2 && it.text == "_, open := <-sendQueue")).length == 1 &&
+     (body.filter (fun it => it.depth == 2 && it.text == "_, open := <-prioritySendQueue")).length == 1 &&
+     (body.filter (fun it => it.kind == "for" || it.kind == "select")).isEmpty) &&
+    -- and there is no other loop after the main one
+    ((sh.drop (i + 2)).filter (fun it => it.kind == "for")).isEmpty
+  | none => false
+
+example : drainsBothQueuesTogether Generated.shape_tubes_Muxer_sender = true := by decide
 example : closedCheckedUnderLock Generated.shape_tubes_Reliable_send = true := by decide
 example : queueSendsAfterCheck Generated.shape_tubes_Reliable_send = true := by decide
 example : senderMarkedRunningOnlyWhenStarted Generated.shape_tubes_Reliable_initiate = true := by decide
